@@ -91,7 +91,8 @@ class MongoStorage(Storage):
         if isinstance(checker, StringFuzzyChecker):
             return self.__string_query_on_conditions('$regex', inquiry), False
         elif isinstance(checker, StringExactChecker):
-            return self.__string_query_on_conditions('$eq', inquiry), False
+            # an element enclosed in the policy tags is matched by its inner text
+            return self.__string_query_on_conditions('$in', inquiry, lambda v: [v, '<%s>' % v]), False
         elif isinstance(checker, RegexChecker):
             if self.db_server_version < (4, 2, 0):
                 return {'type': TYPE_STRING_BASED}, False
@@ -104,7 +105,7 @@ class MongoStorage(Storage):
             log.error('Provided Checker type is not supported.')
             raise UnknownCheckerType(checker)
 
-    def __string_query_on_conditions(self, operator, inquiry):
+    def __string_query_on_conditions(self, operator, inquiry, convert=lambda v: v):
         """
         Construct MongoDB query for string-based Checkers.
         """
@@ -115,7 +116,7 @@ class MongoStorage(Storage):
             conditions.append({
                 field: {
                     '$elemMatch': {
-                        operator: getattr(inquiry, field.rstrip('s'))
+                        operator: convert(getattr(inquiry, field.rstrip('s')))
                     }
                 }
             })
